@@ -16,6 +16,8 @@
  R7 summary-contests: the per-contest vectors the national summary reads (error matrices, stored prediction, call and stop vectors)
     are restricted - where stored or where read - by a mask derived from the expected rows of the indicator, so that a group that
     exists only through an unexpected unit is shown in the tables but is not a contest (today it is one: open known finding K5).
+ R8 nan-free: every results_* column of the units taken from the feed is filled with 0 (restated from C01.R1.passed-through-nan-free):
+    an unexpected unit listed without votes must not put NaN into the indicator products, where 0 * NaN reaches every group.
 """
 from __future__ import annotations
 
@@ -269,6 +271,12 @@ def check(ctx):
     _belief(ctx)
     # ---- R7 the national summary counts the contests of the election ----------------------------------------
     _summary_contests(ctx)
+    # ---- R8 an unexpected unit listed without (some) vote counts -----------------------------------------------
+    # "every other number in every table unchanged, the run never fails": a NaN count of a unit taken from the feed enters the indicator
+    # products of the bootstrap (0 * NaN spreads it to EVERY group) and the group sums of its own groups. Same structural fact as
+    # C01.R1.passed-through-nan-free (all results_* columns of the units taken from the feed are filled with 0).
+    n8 = ctx.borrow("C01", "C01.R1.passed-through-nan-free", "C11.R8.nan-free", "one empty extra row would overwrite the numbers of groups it does not belong to")
+    ctx.sites("C11.R8", n8, 1, "nan-free obligation restated from C01.R1")
 
 
 def zero_turnout_quotients(ctx, mb, rule, consequence):
